@@ -58,6 +58,8 @@ import Kodama.Generated.Method
 import Kodama.Spec.Naive
 import Mathlib.Algebra.Order.Field.Rat
 import Mathlib.Tactic.NormNum.Basic
+import Kodama.Lemmas.FieldInstances
+import Kodama.Props.C03
 namespace Kodama
 open Crit Finset
 
@@ -390,4 +392,99 @@ example : ∃ v : ℚ, Criterion .average (Spec.init .average 3 exData).D
   C02_greedy_heights (fieldNum_laws ℚ) .average 3 exData exSteps exGreedy 1 ⟨2, 3, 13 / 2, 3⟩ rfl
 
 end examples
+/-! ## 9. EXACT ARITHMETIC: the heights returned by `primitive_with` (appended section)
+
+Scope.  Exact arithmetic ONLY: `K` a linearly ordered field whose `Num K` instance computes the field
+operations and has no NaN (`ExactLaws K`, `Lemmas/FieldInstances.lean`: `fieldNum K`,
+`fieldNumWith K sq`).  IEEE floats are not a field; the float gap is measured by the oracles.
+
+Entry point: `primitive_with` (model `primitiveWith`), both build modes, every prior state, every
+valid matrix `2 ≤ n < 2^31`, `2·len = n(n-1)`, all seven methods.  No other hypothesis.
+
+* `C02_primitive`         the call returns, and EVERY returned step's height is the documented
+      criterion of the two clusters it merges (the `Spec.leaves` of its two labels in the returned
+      dendrogram), computed from the ORIGINAL matrix `(Spec.init m n data).D` (= the input entries,
+      squared iff `m.onSquares`: `C02_base_matrix`): min / max / mean over cross pairs for
+      single / complete / average, the tree recursion for weighted, and `Num.sqrt` of the Ward /
+      centroid / median criterion for the methods on squares (`Num.sqrt` abstract, as in
+      `C02_greedy_heights_closed`).  Composition of `C03_primitive_exact` with
+      `C02_greedy_heights_closed`.
+* `C02_primitive_of_run`  the same for a given successful run `primitiveWith … = .ok (st', d', M')`.
+-/
+
+section primitive
+variable {K : Type} [Field K] [LinearOrder K] [IsStrictOrderedRing K] [Num K]
+
+/-- **C02 for `primitive_with`, exact arithmetic, all seven methods.** -/
+theorem C02_primitive (E : ExactLaws K) (chk : Bool) (m : Method) (st : State K)
+    (d : Dendrogram K) (data : Array K) (n : Nat) (h2 : 2 ≤ n) (hs : n < 2147483648)
+    (hl : 2 * data.size = n * (n - 1)) :
+    ∃ st' d' M', primitiveWith chk m st d data n = .ok (st', d', M') ∧
+      ∀ (i : Nat) (s : Step K), d'.steps.toList[i]? = some s →
+        let steps := d'.steps.toList
+        let dm := (Spec.init m n data).D
+        let A := (Spec.leaves n steps steps.length s.c1).toFinset
+        let B := (Spec.leaves n steps steps.length s.c2).toFinset
+        let T₁ := clusterTree n steps s.c1
+        let T₂ := clusterTree n steps s.c2
+        match m with
+        | .single => IsMinOver dm A B s.d
+        | .complete => IsMaxOver dm A B s.d
+        | .average => s.d = avg dm A B
+        | .weighted => s.d = wdist dm T₁ T₂
+        | .ward => s.d = Num.sqrt (wardc dm A B)
+        | .centroid => s.d = Num.sqrt (cen dm A B)
+        | .median => s.d = Num.sqrt (mdist dm T₁ T₂) := by
+  obtain ⟨st', d', M', hrun, hg⟩ := C03_primitive_exact E chk m st d data n h2 hs hl
+  refine ⟨st', d', M', hrun, fun i s hi => ?_⟩
+  have h := C02_greedy_heights_closed E.field m n data d'.steps.toList hg i s hi
+  cases m <;> exact h
+
+/-- `C02_primitive` for a given successful run. -/
+theorem C02_primitive_of_run (E : ExactLaws K) (chk : Bool) (m : Method) (st st' : State K)
+    (d d' : Dendrogram K) (data : Array K) (n : Nat) (M' : Mat K) (h2 : 2 ≤ n)
+    (hs : n < 2147483648) (hl : 2 * data.size = n * (n - 1))
+    (hrun : primitiveWith chk m st d data n = .ok (st', d', M'))
+    (i : Nat) (s : Step K) (hi : d'.steps.toList[i]? = some s) :
+    let steps := d'.steps.toList
+    let dm := (Spec.init m n data).D
+    let A := (Spec.leaves n steps steps.length s.c1).toFinset
+    let B := (Spec.leaves n steps steps.length s.c2).toFinset
+    let T₁ := clusterTree n steps s.c1
+    let T₂ := clusterTree n steps s.c2
+    match m with
+    | .single => IsMinOver dm A B s.d
+    | .complete => IsMaxOver dm A B s.d
+    | .average => s.d = avg dm A B
+    | .weighted => s.d = wdist dm T₁ T₂
+    | .ward => s.d = Num.sqrt (wardc dm A B)
+    | .centroid => s.d = Num.sqrt (cen dm A B)
+    | .median => s.d = Num.sqrt (mdist dm T₁ T₂) := by
+  obtain ⟨st'', d'', M'', hrun', hg⟩ := C03_primitive_exact E chk m st d data n h2 hs hl
+  rw [hrun] at hrun'
+  simp only [Except.ok.injEq, Prod.mk.injEq] at hrun'
+  obtain ⟨-, rfl, -⟩ := hrun'
+  have h := C02_greedy_heights_closed E.field m n data d'.steps.toList hg i s hi
+  cases m <;> exact h
+
+end primitive
+
+/-! ### Non-vacuity over `ℚ` -/
+
+section primitiveExample
+
+/-- Average linkage over `fieldNum ℚ` on `d01=1 d02=9 d12=4`: every returned height is the mean
+over the cross pairs of the two merged clusters. -/
+example : ∃ st' d' M',
+    @primitiveWith ℚ (fieldNum ℚ) true .average State.new (Dendrogram.new 0) #[1, 9, 4] 3
+      = .ok (st', d', M') ∧
+    ∀ (i : Nat) (s : Step ℚ), d'.steps.toList[i]? = some s →
+      s.d = avg (@Spec.init ℚ (fieldNum ℚ) .average 3 #[1, 9, 4]).D
+        (Spec.leaves 3 d'.steps.toList d'.steps.toList.length s.c1).toFinset
+        (Spec.leaves 3 d'.steps.toList d'.steps.toList.length s.c2).toFinset :=
+  @C02_primitive ℚ _ _ _ (fieldNum ℚ) (exactLaws_fieldNum ℚ) true .average _ _ _ 3
+    (by decide) (by decide) (by decide)
+
+end primitiveExample
+
 end Kodama
